@@ -159,6 +159,7 @@ func TestVerifC16Global(t *testing.T) {
 
 type gInst struct{ id, meter, kind int }
 type gCb struct{ id, meter int }
+type gSpan struct{ id, tracer int }
 
 type gen struct {
 	r                  *vRand
@@ -168,6 +169,7 @@ type gen struct {
 	insts              []gInst
 	cbs                []gCb
 	trs                []int
+	spans              []gSpan // spans whose context can be used as a parent
 	nI, nC, nT, nS, nP int
 	// entities created by operations that may still be pending (usable after the join only)
 	lateMeters []int
@@ -284,12 +286,51 @@ func (g *gen) newTracer() {
 	}
 }
 
+// spanOn emits a span on tracer t: from a fresh context, or (parent >= 0) under the context of an earlier span.
+func (g *gen) spanOn(t, parent int) int {
+	id := g.nS
+	g.nS++
+	if parent >= 0 {
+		g.emit("S %d %d ^%d", t, id, parent)
+	} else {
+		g.emit("S %d %d", t, id)
+	}
+	g.spans = append(g.spans, gSpan{id, t})
+	return id
+}
+
 func (g *gen) span() {
 	if len(g.trs) == 0 {
 		return
 	}
-	g.emit("S %d %d", vPick(g.r, g.trs), g.nS)
-	g.nS++
+	t := vPick(g.r, g.trs)
+	parent := -1
+	if len(g.spans) > 0 && g.r.Intn(2) == 0 {
+		// prefer a parent started by the same tracer object, else any span
+		var same []gSpan
+		for _, s := range g.spans {
+			if s.tracer == t {
+				same = append(same, s)
+			}
+		}
+		if len(same) > 0 && g.r.Intn(3) > 0 {
+			parent = vPick(g.r, same).id
+		} else {
+			parent = vPick(g.r, g.spans).id
+		}
+	}
+	g.spanOn(t, parent)
+}
+
+// tracerFromSpan: a tracer obtained through span.TracerProvider() (the placeholder provider for a pre-install span).
+func (g *gen) tracerFromSpan() {
+	if len(g.spans) == 0 || g.late || g.nT >= 5 {
+		return
+	}
+	t := g.nT
+	g.nT++
+	g.emit("TS %d %d", t, vPick(g.r, g.spans).id)
+	g.trs = append(g.trs, t)
 }
 
 // selfSet emits a save/restore-style self-set of one of the three global values.
@@ -322,7 +363,9 @@ func (g *gen) anyOp() {
 	case x < 17:
 		g.span()
 	case x < 18:
-		if g.nT < 3 {
+		if g.r.Intn(3) == 0 {
+			g.tracerFromSpan()
+		} else if g.nT < 3 {
 			g.newTracer()
 		}
 	case x < 19:
@@ -352,6 +395,15 @@ func (g *gen) prePhase() {
 	for k := g.r.Intn(4); k > 0; k-- {
 		g.reg()
 	}
+	// placeholder spans whose contexts outlive the installation (long-running workers, base contexts)
+	for _, t := range g.trs {
+		if g.r.Intn(3) > 0 {
+			id := g.spanOn(t, -1)
+			if g.r.Intn(3) == 0 {
+				g.spanOn(t, id)
+			}
+		}
+	}
 	for k := g.r.Intn(6); k > 0; k-- {
 		g.anyOp()
 	}
@@ -371,9 +423,24 @@ func (g *gen) postPhase() {
 		}
 	}
 	for _, t := range g.trs {
-		if g.r.Intn(4) > 0 {
-			g.emit("S %d %d", t, g.nS)
-			g.nS++
+		if g.r.Intn(4) == 0 {
+			continue
+		}
+		// child of the oldest span of this tracer (a pre-install placeholder when there is one), then a grandchild
+		parent := -1
+		for _, s := range g.spans {
+			if s.tracer == t {
+				parent = s.id
+				break
+			}
+		}
+		if parent >= 0 && g.r.Intn(4) > 0 {
+			c := g.spanOn(t, parent)
+			if g.r.Intn(3) > 0 {
+				g.spanOn(t, c)
+			}
+		} else {
+			g.spanOn(t, -1)
 		}
 	}
 	for k := g.r.Intn(8); k > 0; k-- {
@@ -512,6 +579,7 @@ func (g *gen) stress() *scen {
 		g.insts = append([]gInst(nil), base.insts...)
 		g.cbs = append([]gCb(nil), base.cbs...)
 		g.trs = append([]int(nil), base.trs...)
+		g.spans = append([]gSpan(nil), base.spans...)
 		nops := 2 + r.Intn(7)
 		at := r.Intn(nops)
 		for j := 0; j < nops; j++ {
@@ -541,12 +609,14 @@ func (g *gen) stress() *scen {
 		created.insts = append(created.insts, g.insts[len(base.insts):]...)
 		created.cbs = append(created.cbs, g.cbs[len(base.cbs):]...)
 		created.trs = append(created.trs, g.trs[len(base.trs):]...)
+		created.spans = append(created.spans, g.spans[len(base.spans):]...)
 	}
 	g.emit("]")
 	g.meters = append(append([]int(nil), base.meters...), created.meters...)
 	g.insts = append(append([]gInst(nil), base.insts...), created.insts...)
 	g.cbs = append(append([]gCb(nil), base.cbs...), created.cbs...)
 	g.trs = append(append([]int(nil), base.trs...), created.trs...)
+	g.spans = append(append([]gSpan(nil), base.spans...), created.spans...)
 	if r.Intn(2) == 0 {
 		g.emit("IT")
 	}
